@@ -120,7 +120,7 @@ def gen(rng, tier):
             strs += [bytes(rng.choice(alpha) for _ in range(n)) for _ in range(150000)]
         else:
             strs += [bytes(t) for t in itertools.product(alpha, repeat=n)]
-    strs += [b"yes", b"Yes", b"NO", b"true", b"False", b"FALSE", b"p-", b"g@lse", b"_none_", b"yes ", b" no", b"truee", b"on", b"off"]
+    strs += [b"yes", b"Yes", b"NO", b"true", b"False", b"FALSE", b"p-", b"g@lse", b"tsTe", b"zDs", b"oN", b"_npMe_", b"_none_", b"yes ", b" no", b"truee", b"on", b"off"]
     # every accepted word, in three letter cases, with text behind it and in front of it (longer than the longest word)
     for w in (b"yes", b"no", b"true", b"false", b"1", b"0", b"_none_"):
         for v in (w, w.upper(), w.capitalize()):
